@@ -31,7 +31,7 @@ ASSUMPTIONS = [
 CMDS = ["phase", "phase_ped", "phase_hp_lists", "genotype", "genotype_ped", "polyphase", "haplotag", "haplotagphase",
         "unphase", "stats", "compare", "split", "find_snv_candidates", "polyphase_pre", "polyphase_pre2", "polyphase_pre3",
         # option variants (the result must depend on files and options only, whatever the options are)
-        "split_largest", "compare_multi", "stats_gtf", "phase_distrust", "haplotag_regions", "find_snv_multi", "phase_lists_chr2", "stats_chroms_gz", "genotype_ped_cov"]
+        "split_largest", "compare_multi", "stats_gtf", "phase_distrust", "haplotag_regions", "find_snv_multi", "phase_lists_chr2", "stats_chroms_gz", "genotype_ped_cov", "compare_nosample"]
 
 
 def design_mc(ctx):
@@ -183,7 +183,7 @@ def drive(sc):
             # inputs derived once (not judged): a phased VCF, its compressed copy, tagged BAM, haplotag list
             wd["opts"] = {}
             if cmd in ("unphase", "stats", "compare", "haplotag", "haplotagphase", "split", "split_largest", "compare_multi",
-                       "stats_gtf", "haplotag_regions", "stats_chroms_gz"):
+                       "stats_gtf", "haplotag_regions", "stats_chroms_gz", "compare_nosample"):
                 exc, _, _ = PW.run_phase(wd, d, paths, out_name="phased.vcf")
                 assert exc == "", exc
                 shutil.copy(os.path.join(d, "phased.vcf"), os.path.join(d, "phased_copy.vcf"))
@@ -218,7 +218,7 @@ def drive(sc):
                 from whatshap.cli.unphase import run_unphase
                 with open(os.path.join(d, "unphased.vcf"), "w") as fh:
                     run_unphase(os.path.join(d, "phased.vcf"), fh)
-            if cmd in ("compare", "compare_multi"):
+            if cmd in ("compare", "compare_multi", "compare_nosample"):
                 wd2 = dict(wd, opts={"max_coverage": 2})
                 exc, _, _ = PW.run_phase(wd2, d, paths, out_name="phased2.vcf")
                 assert exc == "", exc
@@ -268,6 +268,10 @@ def drive(sc):
                                     paths["vcf"], paths["bam"]], ["out.vcf", "gt.tsv", "reads.tsv"]),
                 "genotype_ped_cov": (["genotype", "--reference", paths["ref"], "-o", "{out}/out.vcf", "--ped", paths["ped"],
                                       "--max-coverage", "4", paths["vcf"], paths["bam"]], ["out.vcf"]),
+                # several samples common to both files and no --sample: whatever the command does (today: a usage error), it must
+                # do the same thing under every hash seed - the outcome (exit status, message, any output) is the result
+                "compare_nosample": (["compare", "--tsv-pairwise", "{out}/p.tsv", "--names", "a,b",
+                                      os.path.join(d, "phased.vcf"), os.path.join(d, "phased2.vcf")], ["p.tsv", "stdout", "outcome"]),
                 "stats_chroms_gz": (["stats", "--tsv", "{out}/s.tsv", "--block-list", "{out}/b.tsv", "--gtf", "{out}/b.gtf",
                                      "--chromosome", paths["names"][-1], "--chromosome", paths["names"][0], "--sample", names[1],
                                      os.path.join(d, "phased_copy.vcf.gz")], ["s.tsv", "b.tsv", "b.gtf", "stdout"]),
@@ -304,9 +308,14 @@ def drive(sc):
                 e["PYTHONHASHSEED"] = str(env["hashseed"])
             p = subprocess.run([sys.executable, "-m", "whatshap"] + args, env=e, cwd=od, capture_output=True, text=True, timeout=600)
             exc = "" if p.returncode == 0 else f"exit {p.returncode}: " + p.stderr[-300:]
+            if "outcome" in outs:
+                exc = ""
             parts = []
             for o in outs:
-                if o == "stdout":
+                if o == "outcome":
+                    last = [l for l in p.stderr.splitlines() if l.strip()][-1:] if p.returncode else []
+                    parts.append(hashlib.sha1(f"{p.returncode}|{last}".encode()).hexdigest())
+                elif o == "stdout":
                     parts.append(hashlib.sha1("\n".join(l for l in p.stdout.splitlines() if not l.startswith("##commandline")).encode()).hexdigest())
                 else:
                     parts.append(_digest_file(os.path.join(od, o)))
